@@ -637,14 +637,15 @@ func (sc *SubCache[EntityT, ExcerptT, CacheT]) entityUpdated(id entity.Id) error
 	sc.lru.Get(id)
 	// sc.excerpts[id] = bug2.NewBugExcerpt(b.bug, b.Snapshot())
 	sc.excerpts[id] = sc.makeExcerpt(e)
-	sc.mu.Unlock()
 
+	// The index document is written under the same lock as the excerpt: computed and written outside of it,
+	// two concurrent updates of the same entity could reach the index in the wrong order and leave it with
+	// the older state for good.
 	index, err := sc.repo.GetIndex(sc.namespace)
-	if err != nil {
-		return err
+	if err == nil {
+		err = index.IndexOne(e.Id().String(), sc.makeIndexData(e))
 	}
-
-	err = index.IndexOne(e.Id().String(), sc.makeIndexData(e))
+	sc.mu.Unlock()
 	if err != nil {
 		return err
 	}
